@@ -22,6 +22,10 @@ CLAIMED = {
     text="proof: Coq theorems (Props/C04.v): the shape-level verdict after both splits is 'linear, constant coefficients' exactly when every term of the canonical right-hand side is constant or a constant times one state variable (independent of term order and of the other shapes); a variable is analytic iff everything reachable from it along dependencies is so recognised and hits neither documented exception (c04_complete, via the worklist gfp theorem). Tie: 7 algebraically equivalent spellings x entry orders of each canonical system, observed analytic set vs the model decided in Coq; probes: an independent differential criterion (sympy.diff on the spelled text + exceptions + closure) and equality of the analytic set across spellings.",
     note="Trusted: Coq kernel/vm_compute; harness; oracle: SymPy expand() canonicalises every spelling (validated per case, not proved); probe oracle sympy.diff/simplify.",
     technique="Coq proof (idempotence of the two-level split, gfp completeness) + spelling correspondence", ref="5/C04"),
+ "C07": dict(
+    text="proof + translator: the option store's defaults, Config.reset, the exact sequence of store operations one call of _analysis performs, the shape of _read_global_config and the absence of any other write to the store in odetoolbox/*.py are regenerated from /repo on every run; Props/C07.v proves that this sequence starts with a real reset (no return before it), hence the store a call works with is independent of every earlier call (successful or failing, incl. unknown-option assertions half-way through), and that every option the call does not specify has its default. Tie: Config.config observed after every call of random histories vs the model (in Coq). The remaining assumption — analysis reads no other mutable global — and the other two clauses (input not modified, hash-seed independence) are probed: last call of each history vs the same call first in a fresh interpreter, deep equality of the input, several PYTHONHASHSEEDs compared mathematically.",
+    note="Trusted: Coq kernel/vm_compute; translator (fail-closed); harness. Process-level behaviour (fresh interpreter, hash seeds) is differential testing, not proof.",
+    technique="Coq proof over translated store operations + history/fresh-interpreter differential probe", ref="5/C07"),
  "C08": dict(
     text="proof + translator: the list of solver-dictionary keys scanned by the parameter filter is regenerated from /repo on every run and proved to contain update expressions, propagators and initial values, whence (c08_params) a supplied parameter is listed iff any of them refers to it, for every symbol table; the partition gives each state variable to exactly one solver; the numeric update expressions are proved to contain no symbol that is neither a state variable nor a symbol of the user's own right-hand sides. Everything else the property says about the dictionaries (kinds, keys, initial values, symbol closure incl. propagators, configured marker and time-step symbol, parameter values) is checked directly on the returned dictionaries for every accepted generated input x 3 time-step symbols x 3 markers x 4 parameter-block modes.",
     note="Trusted: Coq kernel/vm_compute; translator (fail-closed); harness (independent parse of the returned strings); analytic update/propagator strings come from the SymPy oracle and are covered by the probe only.",
